@@ -65,7 +65,9 @@ class World:
 
         def tip_changed(params):
             World.current.tiplog.append((params.branch.base, params.new_revid))
-        Branch.hooks.install_named_hook("post_change_branch_tip", tip_changed, "verif-c23")
+        if not getattr(World, "hooked", False):
+            Branch.hooks.install_named_hook("post_change_branch_tip", tip_changed, "verif-c23")
+            World.hooked = True
         World.current = self
 
     def cpath(self, i):
@@ -132,9 +134,11 @@ _W = None
 
 
 def world():
+    """The world of this process (a forked worker never reuses its parent's directories)."""
     global _W
-    if _W is None:
+    if _W is None or _W.pid != os.getpid():
         _W = World()
+        _W.pid = os.getpid()
     return _W
 
 
@@ -540,11 +544,10 @@ def search(ctx, events, depth, acc_all, label):
 
 def run(ctx):
     acc = par.Acc()
-    d2 = ctx.q(3, 4)
+    d2 = ctx.q(4, 5)
+    d1 = ctx.q(5, 7)
     n2, layers2 = search(ctx, EVENTS2, d2, acc, "two-checkouts")
-    n1, layers1 = (0, [])
-    if ctx.thorough:
-        n1, layers1 = search(ctx, EVENTS1, 5, acc, "one-checkout")
+    n1, layers1 = search(ctx, EVENTS1, d1, acc, "one-checkout")
     # determinism audit
     a1 = _expand([((("commitM",), ("local", 1)), EVENTS2)])
     a2 = _expand([((("commitM",), ("local", 1)), EVENTS2)])
@@ -576,7 +579,7 @@ def run(ctx):
         "two_checkout_depth": d2,
         "two_checkout_states": n2,
         "two_checkout_new_states_per_layer": layers2,
-        "one_checkout_depth": 5 if ctx.thorough else 0,
+        "one_checkout_depth": d1,
         "one_checkout_states": n1,
         "one_checkout_new_states_per_layer": layers1,
         "fault_runs": facc.n,
